@@ -4,7 +4,9 @@ import oracles_exec as ox
 from common import proof_stage
 from props.graphfacts import conclude, replay, run_graph_property  # noqa: F401
 
-THEOREMS = ["Rva.liveNode_stable", "Rva.live_path_sound", "Rva.live_edge", "Rva.live_transfer", "Rva.mem_unionOver"]
+THEOREMS = ["Rva.liveNode_stable", "Rva.live_path_sound", "Rva.live_edge", "Rva.live_transfer", "Rva.mem_unionOver",
+            "Rva.liveNode_below", "Rva.liveSweep_below", "Rva.liveness_least", "Rva.liveNode_noop",
+            "Rva.liveness_fixpoint", "Rva.liveness_least_solution", "Rva.preSol_top"]
 
 
 def oracle(src, blk, rng):
@@ -28,7 +30,7 @@ def oracle(src, blk, rng):
 
 
 def run(res, tier, seed):
-    proof_ok = proof_stage(res, "Rva.Proofs.C02", THEOREMS)
+    proof_ok = proof_stage(res, "Rva.Proofs.C02Least", THEOREMS, extra_modules=["Rva.Proofs.C02"])
     res.cov["rule"] = ("generated programs + corpus; the real live-in/live-out sets are compared with an "
                        "independent least-fixed-point solver of the documented equations, and with 3 concrete "
                        "executions per program (every register read must be live at every point since its "
